@@ -18,11 +18,11 @@ Import ListNotations.
 Open Scope Z_scope.
 
 Inductive bform :=
- | FormL (rank : nat) (terms : list (Z * nat))   (* ufl.Form: sum of weight * base form id *)
- | Leaf (kind : nat) (id : nat)                  (* 0: Matrix(V,V)  1: Matrix(V,V* )  2: Cofunction *)
+ | FormL (sg : list nat) (terms : list (Z * nat)) (* ufl.Form: sum of weight * base form id *)
+ | Leaf (sg : list nat) (id : nat)               (* Matrix / Cofunction with argument spaces sg *)
  | Coef (id : nat)
  | CoefSum (ids : list nat)                      (* ufl Sum of Coefficients *)
- | ZeroF (rank : nat)
+ | ZeroF (sg : list nat)                        (* ZeroBaseForm: the spaces of its arguments *)
  | FSum (cs : list (bform * Z))
  | Act (l r : bform)
  | Adj (a : bform)
@@ -34,22 +34,24 @@ Definition is_ident (b : bform) : bool := match b with CoArg | Arg => true | _ =
 Definition is_act (b : bform) : bool := match b with Act _ _ => true | _ => false end.
 Definition is_forml (b : bform) : bool := match b with FormL _ _ => true | _ => false end.
 
-(* number of arguments reported by arguments() *)
-Fixpoint rank (b : bform) : nat :=
+(* the function spaces of the arguments reported by arguments(), in order (space codes: 0 = V,
+   1 = V*, 2 = U, 3 = U*, ...): Action contracts the last argument of the left operand with the
+   first of the right one, Adjoint reverses *)
+Fixpoint sig (b : bform) : list nat :=
   match b with
-  | FormL r _ => r
-  | Leaf 2%nat _ => 1
-  | Leaf _ _ => 2
-  | Coef _ | CoefSum _ => 0
-  | ZeroF r => r
-  | FSum cs => (fix go (cs : list (bform * Z)) : nat :=
-                  match cs with [] => 0%nat | (c, _) :: r => Nat.max (rank c) (go r) end) cs
-  | Act l r => (rank l - 1) + (match r with Coef _ | CoefSum _ => 0 | _ => rank r - 1 end)
-  | Adj a => rank a
-  | CoArg => 2
-  | Arg => 0
-  | Cyclic => 0
+  | FormL sg _ => sg
+  | Leaf sg _ => sg
+  | Coef _ | CoefSum _ => []
+  | ZeroF sg => sg
+  | FSum cs => match cs with [] => [] | (c, _) :: _ => sig c end
+  | Act l r => removelast (sig l) ++ (match r with Coef _ | CoefSum _ => [] | _ => tl (sig r) end)
+  | Adj a => rev (sig a)
+  | CoArg => [0; 1]
+  | Arg => []
+  | Cyclic => []
   end%nat.
+(* number of arguments reported by arguments() *)
+Definition rank (b : bform) : nat := length (sig b).
 
 (* does the object contain a re-initialised (self-referential) Action ? *)
 Fixpoint cyc (b : bform) : bool :=
@@ -82,7 +84,7 @@ Definition merged (l : list (bform * Z)) : list (Z * nat) :=
   flat_map (fun cw => match fst cw with FormL _ ts => scale_terms (snd cw) ts | _ => [] end) l.
 Definition others (l : list (bform * Z)) : list (bform * Z) :=
   filter (fun cw => negb (is_forml (fst cw))) l.
-Definition first_form_rank (l : list (bform * Z)) : option nat :=
+Definition first_form_rank (l : list (bform * Z)) : option (list nat) :=
   match filter (fun cw => is_forml (fst cw)) l with
   | (FormL r _, _) :: _ => Some r
   | _ => None
@@ -95,7 +97,7 @@ Definition sum_variational (l : list (bform * Z)) : list (bform * Z) :=
 
 Definition mk_formsum (cs : list (bform * Z)) : bform :=
   if forallb (fun cw => is_zero (fst cw)) cs
-  then ZeroF (match cs with (c, _) :: _ => rank c | [] => 0%nat end)
+  then ZeroF (match cs with (c, _) :: _ => sig c | [] => [] end)
   else match cs with
        | [(a, 1)] => a
        | _ => FSum (sum_variational (flatten (drop_zero cs)))
@@ -122,7 +124,7 @@ Definition act_right (m : bool) (c r : bform) : bform :=   (* Action(c, r): c no
        end.
 Definition mk_action (m : bool) (l r : bform) : bform :=
   if cyc l || cyc r then Cyclic
-  else if is_zero l || is_zero r then ZeroF (rank (Act l r))
+  else if is_zero l || is_zero r then ZeroF (sig (Act l r))
   else if is_ident l then (if isA m r then Cyclic else r)
   else if is_ident r then (if isA m l then Cyclic else l)
   else match l with
@@ -153,7 +155,7 @@ Definition adj1 (c : bform) : bform :=
 Definition mk_adjoint (a : bform) : bform :=
   if cyc a then Cyclic
   else match a with
-       | ZeroF r => ZeroF r
+       | ZeroF sg => ZeroF (rev sg)            (* the arguments are swapped *)
        | Adj a' => a'
        | FSum cs => let res := mk_formsum (map (fun cw => (adj1 (fst cw), snd cw)) cs) in
                     if is_adj res then Adj a else res
@@ -178,6 +180,76 @@ Definition mk_rmul (w : Z) (a : bform) : bform :=
   match a with
   | FormL r t => FormL r (scale_terms w t)
   | _ => mk_formsum [(a, w)]
+  end.
+
+(* nested induction principle for bform *)
+Section BformInd.
+Variable P : bform -> Prop.
+Hypothesis HFormL : forall sg ts, P (FormL sg ts).
+Hypothesis HLeaf : forall sg i, P (Leaf sg i).
+Hypothesis HCoef : forall i, P (Coef i).
+Hypothesis HCoefSum : forall ids, P (CoefSum ids).
+Hypothesis HZeroF : forall sg, P (ZeroF sg).
+Hypothesis HFSum : forall cs, Forall (fun cw => P (fst cw)) cs -> P (FSum cs).
+Hypothesis HAct : forall l r, P l -> P r -> P (Act l r).
+Hypothesis HAdj : forall a, P a -> P (Adj a).
+Hypothesis HCoArg : P CoArg.
+Hypothesis HArg : P Arg.
+Hypothesis HCyclic : P Cyclic.
+Fixpoint bform_ind' (b : bform) : P b :=
+  match b with
+  | FormL sg ts => HFormL sg ts
+  | Leaf sg i => HLeaf sg i
+  | Coef i => HCoef i
+  | CoefSum ids => HCoefSum ids
+  | ZeroF sg => HZeroF sg
+  | FSum cs => HFSum cs
+      ((fix aux (l : list (bform * Z)) : Forall (fun cw => P (fst cw)) l :=
+          match l with
+          | [] => Forall_nil _
+          | cw :: r => Forall_cons cw (match cw as p return P (fst p) with (c, _) => bform_ind' c end) (aux r)
+          end) cs)
+  | Act l r => HAct l r (bform_ind' l) (bform_ind' r)
+  | Adj a => HAdj a (bform_ind' a)
+  | CoArg => HCoArg
+  | Arg => HArg
+  | Cyclic => HCyclic
+  end.
+End BformInd.
+
+(* map_integrands (ufl/algorithms/map_integrands.py) for a function that makes the base forms KF and
+   the Matrix/Cofunction leaves KX vanish (integrand -> Zero, leaf -> ZeroBaseForm) and is the identity
+   elsewhere.  FormSum branch: the mapped components that vanished are dropped TOGETHER WITH THEIR
+   WEIGHTS; all vanished -> ZeroBaseForm(arguments of the first mapped component); one survivor of
+   weight 1 -> the survivor; Adjoint / Action are rebuilt through their constructors. *)
+Definition memb (i : nat) (l : list nat) : bool := existsb (Nat.eqb i) l.
+Definition map_fs (mapped : list (bform * Z)) : bform :=
+  match drop_zero mapped with
+  | [] => ZeroF (match mapped with (c, _) :: _ => sig c | [] => [] end)
+  | nz => mk_formsum nz
+  end.
+Definition keep_terms (KF : list nat) (ts : list (Z * nat)) : list (Z * nat) :=
+  filter (fun t => negb (memb (snd t) KF)) ts.
+Fixpoint mapK (m : bool) (KF KX : list nat) (b : bform) : bform :=
+  match b with
+  | FormL sg ts => match keep_terms KF ts with [] => FormL [] [] | ts' => FormL sg ts' end
+  | Leaf sg i => if memb i KX then ZeroF sg else b
+  | FSum cs => map_fs ((fix go (cs : list (bform * Z)) : list (bform * Z) :=
+                          match cs with [] => [] | (c, w) :: r => (mapK m KF KX c, w) :: go r end) cs)
+  | Act l r => mk_action m (mapK m KF KX l) (mapK m KF KX r)
+  | Adj a => mk_adjoint (mapK m KF KX a)
+  | _ => b
+  end.
+(* the rebuilt Action / Adjoint calls stay outside the re-initialisation class *)
+Fixpoint msafe (m : bool) (KF KX : list nat) (b : bform) : bool :=
+  match b with
+  | FSum cs => (fix go (cs : list (bform * Z)) : bool :=
+                  match cs with [] => true | (c, _) :: r => msafe m KF KX c && go r end) cs
+  | Act l r => msafe m KF KX l && msafe m KF KX r
+               && negb (cyc (mapK m KF KX l)) && negb (cyc (mapK m KF KX r))
+               && negb (reinit m (mapK m KF KX l) (mapK m KF KX r))
+  | Adj a => msafe m KF KX a && negb (cyc (mapK m KF KX a))
+  | _ => true
   end.
 
 (* compositions: the syntax the theorems quantify over *)
@@ -210,7 +282,7 @@ Variable T : Type.
 Variables (tzero : T) (tadd : T -> T -> T) (tscale : Z -> T -> T).
 Variables (contract : T -> T -> T) (transp : T -> T) (ident : T).
 Variable F : nat -> T.                (* base variational forms *)
-Variable X : nat -> nat -> T.         (* Matrix / Cofunction leaves *)
+Variable X : nat -> T.                (* Matrix / Cofunction leaves *)
 Variable Y : nat -> T.                (* Coefficients *)
 Variable junk : T.                    (* a re-initialised Action has no meaning *)
 
@@ -244,7 +316,7 @@ Definition tsum_terms (ts : list (Z * nat)) : T :=
 Fixpoint assemble (b : bform) : T :=
   match b with
   | FormL _ ts => tsum_terms ts
-  | Leaf k i => X k i
+  | Leaf _ i => X i
   | Coef i => Y i
   | CoefSum ids => fold_right (fun i acc => tadd (Y i) acc) tzero ids
   | ZeroF _ => tzero
@@ -445,6 +517,53 @@ Proof.
   simpl. apply tsum_scale.
 Qed.
 
+(* the intended value of map_integrands(kill KF, KX): the killed leaves denote zero *)
+Section MapIntegrands.
+Variables (m : bool) (KF KX : list nat).
+Fixpoint assembleK (b : bform) : T :=
+  match b with
+  | FormL _ ts => tsum_terms (keep_terms KF ts)
+  | Leaf _ i => if memb i KX then tzero else X i
+  | FSum cs => (fix go (cs : list (bform * Z)) : T :=
+                  match cs with [] => tzero | (c, w) :: r => tadd (tscale w (assembleK c)) (go r) end) cs
+  | Act l r => contract (assembleK l) (assembleK r)
+  | Adj a => transp (assembleK a)
+  | _ => assemble b
+  end.
+
+Lemma map_fs_sound mapped : assemble (map_fs mapped) = wsum mapped.
+Proof.
+  unfold map_fs. rewrite <- (wsum_drop_zero mapped).
+  destruct (drop_zero mapped) eqn:E; [reflexivity|]. rewrite <- E. apply C28_formsum_sound.
+Qed.
+
+(** map_integrands preserves the map: for ALL base forms b (nested induction) whose rebuilt Action
+    calls stay outside the re-initialisation class *)
+Theorem C28_map_integrands_partial : forall b, msafe m KF KX b = true ->
+  assemble (mapK m KF KX b) = assembleK b.
+Proof.
+  induction b using bform_ind'; intros Hs; try reflexivity.
+  - (* Form *) simpl. destruct (keep_terms KF ts); reflexivity.
+  - (* leaf *) simpl. destruct (memb i KX); reflexivity.
+  - (* FormSum *) simpl. rewrite map_fs_sound. simpl in Hs.
+    induction cs as [|[c w] r IHr]; [reflexivity|].
+    inversion H as [|? ? Hc Hr]; subst. apply andb_true_iff in Hs. destruct Hs as [Hs1 Hs2].
+    simpl in Hc. simpl. rewrite (Hc Hs1). f_equal. apply IHr; assumption.
+  - (* Action *) simpl in *.
+    repeat match goal with
+           | H : _ && _ = true |- _ => apply andb_true_iff in H; destruct H
+           | H : negb _ = true |- _ => apply negb_true_iff in H
+           end.
+    rewrite C28_action_partial, IHb1, IHb2; auto.
+  - (* Adjoint *) simpl in *.
+    repeat match goal with
+           | H : _ && _ = true |- _ => apply andb_true_iff in H; destruct H
+           | H : negb _ = true |- _ => apply negb_true_iff in H
+           end.
+    rewrite C28_adjoint_sound, IHb; auto.
+Qed.
+End MapIntegrands.
+
 (* the specification of a composition: plain multilinear algebra, no simplification *)
 Fixpoint denote (e : bexp) : T :=
   match e with
@@ -497,9 +616,6 @@ Qed.
 
 (* ---------------------------------------------------------------------------------------- *)
 (* reported number of arguments follows argument contraction *)
-Lemma rank_act_zero l r : rank (ZeroF (rank (Act l r))) = rank (Act l r).
-Proof. reflexivity. Qed.
-
 End Semantics.
 
 (** The identity shortcut of Action.__new__ returns its other operand; when that operand is itself
@@ -508,27 +624,30 @@ End Semantics.
 Theorem C28_action_refuted :
   exists l r, cyc l = false /\ cyc r = false /\ cyc (mk_action true l r) = true.
 Proof.
-  exists (Act (Leaf 1 0) (Leaf 1 1)), CoArg. repeat split; reflexivity.
+  exists (Act (Leaf [0; 1] 0) (Leaf [0; 1] 1))%nat, CoArg. repeat split; reflexivity.
 Qed.
 
-(* arguments(): Action contracts one argument of each operand (one of the left one if the right
-   operand is a Coefficient); on non-simplified results this is the definition, the theorem covers the
-   simplified ones for operands of consistent rank. *)
-Definition contraction_rank (l r : bform) : nat :=
-  ((rank l - 1) + (match r with Coef _ | CoefSum _ => 0 | _ => rank r - 1 end))%nat.
+(* arguments(): the spaces follow argument contraction also on the simplified results *)
+Lemma sig_act_length l r : rank (Act l r) = (rank l - 1 + (rank r - 1))%nat.
+Proof.
+  unfold rank. simpl.
+  assert (E : (match r with Coef _ | CoefSum _ => [] | _ => tl (sig r) end) = tl (sig r)).
+  { destruct r; reflexivity. }
+  rewrite E, app_length. f_equal.
+  - destruct (sig l) as [|x t] using rev_ind; auto. rewrite removelast_last, app_length. simpl. lia.
+  - destruct (sig r); simpl; lia.
+Qed.
 
-Theorem C28_action_zero_rank : forall l r, cyc l = false -> cyc r = false ->
-  is_zero l || is_zero r = true -> forall m, rank (mk_action m l r) = contraction_rank l r.
+Theorem C28_action_zero_sig : forall l r, cyc l = false -> cyc r = false ->
+  is_zero l || is_zero r = true -> forall m, sig (mk_action m l r) = sig (Act l r).
 Proof. intros l r Hl Hr H m. unfold mk_action. rewrite Hl, Hr, H. reflexivity. Qed.
 
-Theorem C28_action_plain_rank : forall l r, rank (Act l r) = contraction_rank l r.
-Proof. reflexivity. Qed.
-
-Theorem C28_adjoint_rank : forall a, cyc a = false -> (forall cs, a <> FSum cs) -> a <> CoArg ->
-  rank (mk_adjoint a) = rank a.
+Theorem C28_adjoint_sig : forall a, cyc a = false -> (forall cs, a <> FSum cs) -> a <> CoArg ->
+  sig (mk_adjoint a) = rev (sig a).
 Proof.
   intros a Ha Hf Hc. unfold mk_adjoint. rewrite Ha. destruct a; try reflexivity.
   - exfalso; eapply Hf; reflexivity.
+  - simpl. symmetry. apply rev_involutive.
   - contradiction.
 Qed.
 
@@ -542,11 +661,10 @@ Fixpoint uins (n : nat) (l : list nat) : list nat :=
   end.
 Fixpoint nums (b : bform) : list nat :=
   match b with
-  | FormL r _ => seq 0 r
-  | Leaf 2%nat _ => [0%nat]
-  | Leaf _ _ => [0%nat; 1%nat]
+  | FormL sg _ => seq 0 (length sg)
+  | Leaf sg _ => seq 0 (length sg)
   | Coef _ | CoefSum _ => []
-  | ZeroF r => seq 0 r
+  | ZeroF sg => seq 0 (length sg)
   | FSum cs => (fix go (cs : list (bform * Z)) : list nat :=
                   match cs with [] => [] | (c, _) :: r => fold_right uins (go r) (nums c) end) cs
   | Act l r => removelast (nums l) ++ (match r with Coef _ | CoefSum _ => [] | _ => tl (nums r) end)
@@ -574,15 +692,15 @@ Theorem C28_arguments_refuted :
   exists a b, length (nums a) = 1%nat /\ length (nums b) = 1%nat /\ rank (mk_add a b) = 1%nat
               /\ length (nums (mk_add a b)) = 2%nat.
 Proof.
-  exists (Act (Adj (Leaf 1 0)) (Coef 0)), (Act (Act (Adj (Leaf 1 1)) (Coef 0)) (Leaf 1 2)).
+  exists (Act (Adj (Leaf [0; 1] 0)) (Coef 0))%nat, (Act (Act (Adj (Leaf [0; 1] 1)) (Coef 0)) (Leaf [0; 1] 2))%nat.
   repeat split; reflexivity.
 Qed.
 
 (* consistency of the hypotheses: they hold for the integers (rank-0 tensors: contraction = product,
    transpose = identity) *)
 Theorem C28_laws_consistent : forall m (e : bexp), safe m e = true ->
-  @assemble Z 0 Z.add Z.mul Z.mul (fun a => a) 1 (fun _ => 1) (fun _ _ => 1) (fun _ => 1) 0 (build m e)
-  = @denote Z 0 Z.add Z.mul Z.mul (fun a => a) 1 (fun _ => 1) (fun _ _ => 1) (fun _ => 1) 0 e.
+  @assemble Z 0 Z.add Z.mul Z.mul (fun a => a) 1 (fun _ => 1) (fun _ => 1) (fun _ => 1) 0 (build m e)
+  = @denote Z 0 Z.add Z.mul Z.mul (fun a => a) 1 (fun _ => 1) (fun _ => 1) (fun _ => 1) 0 e.
 Proof.
   intros m e H. apply (C28_build_partial _ _ _ _ _ _ _ _ _ _ _) with (m := m); intros; try ring; auto.
 Qed.
@@ -591,6 +709,7 @@ Print Assumptions C28_formsum_sound.
 Print Assumptions C28_action_partial.
 Print Assumptions C28_adjoint_sound.
 Print Assumptions C28_build_partial.
+Print Assumptions C28_map_integrands_partial.
 Print Assumptions C28_action_refuted.
 Print Assumptions C28_arguments_refuted.
 Print Assumptions C28_laws_consistent.
